@@ -161,6 +161,8 @@ def committed_replays(pid):
 
 
 def worker_main(argv):
+  import warnings
+  warnings.filterwarnings('ignore', category=SyntaxWarning)
   modname, ctxfile, outfile = argv
   with open(ctxfile) as f:
     ctx = Ctx(json.load(f))
@@ -270,6 +272,8 @@ def main(argv):
 
 def _main(argv):
   import logging
+  import warnings
+  warnings.filterwarnings('ignore', category=SyntaxWarning)
   logging.getLogger().setLevel(logging.ERROR)   # malt's fallback warnings during shrinking are noise here
   if not argv:
     print('usage: check <ID> [quick|thorough] [--replay path]')
